@@ -41,3 +41,72 @@ pub fn mate_in_2_keys(pos: &Pos) -> Vec<Mv> {
     }
     keys
 }
+
+/// Bounded forced-mate solver. `budget` counts visited positions; `None` = budget exhausted.
+pub struct Solver {
+    pub nodes: u64,
+    pub budget: u64,
+}
+
+impl Solver {
+    pub fn new(budget: u64) -> Solver {
+        Solver { nodes: 0, budget }
+    }
+
+    /// Can the side to move force checkmate within `n` of its own moves?
+    pub fn can_mate(&mut self, pos: &Pos, n: u32) -> Option<bool> {
+        self.nodes += 1;
+        if self.nodes > self.budget {
+            return None;
+        }
+        let w = pos.white_to_move;
+        let mut moves = pos.legal_moves();
+        // checking moves first: they are the usual mating tries
+        moves.sort_by_key(|m| !pos.make(m).in_check(!w));
+        for m in &moves {
+            let p2 = pos.make(m);
+            let replies = p2.legal_moves();
+            if replies.is_empty() {
+                if p2.in_check(!w) {
+                    return Some(true);
+                }
+                continue;
+            }
+            if n <= 1 {
+                continue;
+            }
+            let mut all = true;
+            for r in &replies {
+                match self.can_mate(&p2.make(r), n - 1) {
+                    None => return None,
+                    Some(true) => {}
+                    Some(false) => {
+                        all = false;
+                        break;
+                    }
+                }
+            }
+            if all {
+                return Some(true);
+            }
+        }
+        Some(false)
+    }
+
+    /// `pos`: the defender is to move. Is the defender mated (now) or unable to avoid mate within
+    /// `n` attacker moves?
+    pub fn is_lost_within(&mut self, pos: &Pos, n: u32) -> Option<bool> {
+        let replies = pos.legal_moves();
+        if replies.is_empty() {
+            return Some(pos.in_check(pos.white_to_move));
+        }
+        for r in &replies {
+            match self.can_mate(&pos.make(r), n) {
+                None => return None,
+                Some(true) => {}
+                Some(false) => return Some(false),
+            }
+        }
+        Some(true)
+    }
+}
